@@ -212,7 +212,7 @@ META["C08"] = {
 
 META["C07"] = {
     "title": "Scheduler-moving operators preserve the source's sequence",
-    "rule": "cases = (one or two of observe_on / delay / delay_at / delay_subscription / delay_subscription_at / subscribe_on in local or _threads form, optionally between transparent operators, timed script of 1..n uniquely numbered items (quick n=5, thorough n=9) with terminal none/complete/error and gaps {0,1,2,5,10,60} ms, delays {0,1,5,50} ms, instants {past, now, +40ms, +1h}, executor class fifo (FIFO task order, equal deadlines woken in creation order) or any-order (any ready task next, equal deadlines in any order), prompt or late schedule, schedule seed). Subscription-moving operators get a cold source. Non-trivial: at least two tasks were ready at once or a delay was pending across an input event; distinct = hash(case). A violation is blamed on the first scheduler operator of the case that shows the same violation kind alone. A share of the cases (counter runs_on_the_real_LocalPool) is built with the library's own `impl Scheduler for futures::executor::LocalSpawner` and run on the real futures LocalPool (run_until_stalled / try_run_one) instead of the harness executor. Thread part (scenarios observe_on_threads[fifo-worker], delay_threads[fifo-worker]): one producer thread emits 1-4 items and an optional terminal into observe_on_threads / delay_threads(0|1ms) while ONE worker thread runs the scheduled tasks in FIFO order and fires the virtual timers (a single-threaded pool on its own thread), optionally with an unsubscribing thread; random/PCT and preemption-bounded systematic schedules at the hooked lock points plus free-running OS threads; whatever is still scheduled when the threads end is run FIFO afterwards; oracle: no invented or duplicated item, source order kept, and without an unsubscribe every item then the terminal arrived. Feedback loops (counter feedback_loop_cases): the subscriber's callback pushes item x+1 into the hot source when x arrives (1..4 quick / 1..8 thorough items), through observe_on / delay(0|1ms) alone, stacked and between map / filter / tap, in all three builder flavours; when the loop has run dry the source completes, fails or stays open from outside: every item in order, then the terminal. Long-lived subscriptions (counter long_lived_subscription_cases): 3-8 bursts of 1-70 items through one observe_on / delay(0|1ms) / delay_at(past) subscription, with everything scheduled run between bursts, then complete / error / nothing. delay_at(now+2ms) with the real clock crossing the instant in the middle of the history (the thread sleeps 4 ms between items; counter delay_at_instant_crossed_mid_history): order and completeness must not depend on which side of the instant an item was produced.",
+    "rule": "cases = (one or two of observe_on / delay / delay_at / delay_subscription / delay_subscription_at / subscribe_on in local or _threads form, optionally between transparent operators, timed script of 1..n uniquely numbered items (quick n=5, thorough n=9) with terminal none/complete/error and gaps {0,1,2,5,10,60} ms, delays {0,1,5,50} ms, instants {past, now, +40ms, +1h}, executor class fifo (FIFO task order, equal deadlines woken in creation order) or any-order (any ready task next, equal deadlines in any order), prompt or late schedule, schedule seed). Subscription-moving operators get a cold source. Non-trivial: at least two tasks were ready at once or a delay was pending across an input event; distinct = hash(case). A violation is blamed on the first scheduler operator of the case that shows the same violation kind alone. A share of the cases (counter runs_on_the_real_LocalPool) is built with the library's own `impl Scheduler for futures::executor::LocalSpawner` and run on the real futures LocalPool (run_until_stalled / try_run_one) instead of the harness executor. Thread part (scenarios observe_on_threads[fifo-worker], delay_threads[fifo-worker]): one producer thread emits 1-4 items and an optional terminal into observe_on_threads / delay_threads(0|1ms) while ONE worker thread runs the scheduled tasks in FIFO order and fires the virtual timers (a single-threaded pool on its own thread), optionally with an unsubscribing thread; random/PCT and preemption-bounded systematic schedules at the hooked lock points plus free-running OS threads; whatever is still scheduled when the threads end is run FIFO afterwards; oracle: no invented or duplicated item, source order kept, and without an unsubscribe every item then the terminal arrived. Feedback loops (counter feedback_loop_cases): the subscriber's callback pushes item x+1 into the hot source when x arrives (1..4 quick / 1..8 thorough items), through observe_on / delay(0|1ms) alone, stacked and between map / filter / tap, in all three builder flavours; when the loop has run dry the source completes, fails or stays open from outside: every item in order, then the terminal. Long-lived subscriptions (counter long_lived_subscription_cases): 3-8 bursts of 1-70 items through one observe_on / delay(0|1ms) / delay_at(past) subscription, with everything scheduled run between bursts, then complete / error / nothing. delay_at(now+2ms) with the real clock crossing the instant in the middle of the history (the thread sleeps 4 ms between items; counter delay_at_instant_crossed_mid_history): order and completeness must not depend on which side of the instant an item was produced. In half of the hot scripts without a terminal the program lets its subscription handle go out of scope and the source subject drops its observers while items may still be on their way (counter scripts_whose_source_goes_away_unterminated): they are still owed, in order.",
     "assumptions": COMMON_ASSUME + [
         "item identity by unique ids; 'never earlier' is judged on virtual stamps: delivery >= emission + sum of configured delays; for _at forms the real time the case took (+1 ms) is the tolerance",
         "the any-order executor models a k-worker pool; the real futures ThreadPool is not under the explorer's control",
